@@ -642,6 +642,15 @@ func (x *run) ServeDNS(w dns.ResponseWriter, r *dns.Msg) {
 			x.res.Fail("F1", "valid-size-refused", "WriteMsg refused a %d-octet reply as too large", len(b))
 			k.Unlock()
 		}
+		// a reply that fits, written by the handler itself before it returns, to a client that is still there,
+		// by a handler that has not closed its writer: nothing on a stream stands in its way (the server sets
+		// no write deadlines, the link of an exchange run is not cut) - whatever the handler tried before
+		if perr == nil && len(b) <= 65535 && err != nil && ex.net == "tcp" && p.Kind != "async" && p.Kind != "closethenwrite" && x.peerStillThere(w) {
+			k.Lock()
+			x.res.Stats["oracle.F1_fitting_reply_accepted"]++
+			x.res.Fail("F1", "fitting-reply-refused", "the handler for %s wrote a %d-octet reply from inside ServeDNS, its client was still connected and waiting, and WriteMsg returned %q (handler kind %s)", tok, len(b), err.Error(), p.Kind)
+			k.Unlock()
+		}
 		if ex.net == "tcp" && len(b) > 65535 {
 			x.bump("oracle.F1_oversize_refused")
 			if err == nil {
@@ -749,6 +758,22 @@ func (x *run) ServeDNS(w dns.ResponseWriter, r *dns.Msg) {
 	k.Lock()
 	k.EffectLocked("h.exit " + tok)
 	k.Unlock()
+}
+
+// peerStillThere reports whether the client's end of the stream connection behind w is open (and the link
+// has not cut it).
+//
+//go:norace
+func (x *run) peerStillThere(w dns.ResponseWriter) bool {
+	ra := w.RemoteAddr().String()
+	x.k.Lock()
+	defer x.k.Unlock()
+	for _, c := range x.n.Conns {
+		if c.Role == "srv" && c.RemoteAddr().String() == ra && c.Peer != nil {
+			return !c.Peer.IsClosed() && !c.Peer.WasReset() && !c.WasReset()
+		}
+	}
+	return false
 }
 
 type asyncReply struct {
